@@ -157,9 +157,40 @@ def section_index():
                 return ("dep", S[order[1] + (n,)])
             return ("leaf", i, j, n)
         S = BlockSeries(eval=ev, shape=(2, 2), n_infinite=1)
-        S[:2, :2, 1]
+        got = S[:2, :2, 1]
         if len(log) != len(set(log)):
             fail("index", "element evaluated twice inside one batched request with internal dependency", log=log)
+        # ... and the batched result holds every element's value (a nested request of the same extent must not disturb the outer one)
+        for i in range(2):
+            for j in range(2):
+                want = ("dep", ("leaf",) + order[1] + (1,)) if (i, j) == order[0] else ("leaf", i, j, 1)
+                if got[i, j] is np.ma.masked or got[i, j] != want:
+                    fail("index", "batched request with an internal dependency returns a wrong entry", entry=(i, j), got=repr(got[i, j]), want=want, dependent=order[0])
+    # the same through list requests, finite-only views and a Hermitian-style definition (lower blocks read the upper ones at the same orders), several request shapes
+    def evh(i, j, n):
+        if i > j:
+            return ("adj", Sh[j, i, n])
+        return ("val", i, j, n)
+    for req in ((slice(None), slice(None), 2), (slice(None), slice(None), slice(None, 3)), ([1, 0], slice(None), 2), (slice(None), [1, 0], [1, 2]), (1, slice(None), 1), (slice(None), 0, slice(1, 3))):
+        cases += 1
+        Sh = BlockSeries(eval=evh, shape=(2, 2), n_infinite=1)
+        got = Sh[req]
+        ref_arr = np.empty((2, 2, 4), dtype=object)
+        for i, j, n in np.ndindex(2, 2, 4):
+            ref_arr[i, j, n] = ("adj", ("val", j, i, n)) if i > j else ("val", i, j, n)
+        want = ref_arr[req]
+        for pos in np.ndindex(*want.shape):
+            if got[pos] is np.ma.masked or got[pos] != want[pos]:
+                fail("index", "request on a series whose lower blocks read its upper blocks returns a wrong entry", request=req, pos=pos, got=repr(got[pos]), want=want[pos])
+                break
+    cases += 1
+    Sh = BlockSeries(eval=evh, shape=(2, 2), n_infinite=1)
+    view = Sh[:, :]
+    for i, j, n in np.ndindex(2, 2, 3):
+        want = ("adj", ("val", j, i, n)) if i > j else ("val", i, j, n)
+        if view[i, j, n] != want:
+            fail("index", "view of a series whose lower blocks read its upper blocks returns a wrong entry", at=(i, j, n), got=repr(view[i, j, n]), want=want)
+            break
     # self reference
     cases += 1
     R = BlockSeries(eval=lambda n: R[n], shape=(), n_infinite=1)
